@@ -9,7 +9,47 @@ import (
 
 // ---------- C11: events reach every listening catch event exactly once and delivery never blocks ----------
 
+// genC11Burst: one armed catch event, a slow trace subscriber holding the engine up, and a burst of
+// events from separate goroutines of which exactly one matches: whatever the order, the listener has
+// to continue exactly once and every ConsumeEvent call has to return.
+func genC11Burst(d *Draw) Case {
+	defs := &Definitions{}
+	g := &Graph{ID: "P1", Executable: true}
+	defs.Procs = []*Graph{g}
+	defs.Signals = []string{"sA", "sX", "sY"}
+	defs.Messages = []string{"mX"}
+	g.addNode(&Node{ID: "Start", Kind: "start"})
+	g.addNode(&Node{ID: "C1", Kind: "catch", Events: []EventDef{{Kind: "signal", Ref: "sA"}}})
+	g.connect(defs, "Start", "C1", nil, -1)
+	g.addNode(&Node{ID: "T1", Kind: "task", Results: []string{"r_T1"}})
+	g.connect(defs, "C1", "T1", nil, -1)
+	g.addNode(&Node{ID: "End", Kind: "end"})
+	g.connect(defs, "T1", "End", nil, -1)
+	g.index()
+	c := &ProcCase{Buf: d.N(3), Hold: d.N(3), ExtraObs: 1, SlowObsMs: 5 + 10*d.N(4)}
+	k := 6 + d.N(26) // the relay between the two tracers buffers ten traces before back-pressure reaches the node
+	pos := d.N(k + 1)
+	noise := []EvPlan{{Kind: "signal", Ref: "sX"}, {Kind: "signal", Ref: "sY"}, {Kind: "message", Ref: "mX"}}
+	var evd []string
+	for i := 0; i <= k; i++ {
+		ep := noise[d.N(len(noise))]
+		if i == pos {
+			ep = EvPlan{Kind: "signal", Ref: "sA"}
+		}
+		ep.Own, ep.Exact, ep.WhenListening = true, true, 1
+		c.Events = append(c.Events, ep)
+		evd = append(evd, ep.Ref)
+	}
+	c.Prog = &Program{Defs: defs, Vars: map[string]any{}, Tags: []string{"burst"}, Desc: fmt.Sprintf("one catch (sA), slow subscriber %dms/trace, burst %v from separate goroutines", c.SlowObsMs, evd)}
+	c.Picks = drawPicks(d, 16)
+	c.Meta = map[string]int{"racy": 0, "burst": 1, "nevents": len(c.Events)}
+	return c
+}
+
 func genC11(d *Draw) Case {
+	if d.N(5) == 4 {
+		return genC11Burst(d)
+	}
 	defs := &Definitions{}
 	g := &Graph{ID: "P1", Executable: true}
 	defs.Procs = []*Graph{g}
@@ -102,9 +142,11 @@ func genC11(d *Draw) Case {
 		evd = append(evd, ref)
 	}
 	// make sure the instance can finish: append the awaited events in order at the end (quiescent deliveries)
+	final := false
 	if d.N(3) != 0 {
+		final = true
 		for _, ref := range used[len(used)-nc:] {
-			c.Events = append(c.Events, EvPlan{Kind: kindOf(ref), Ref: ref})
+			c.Events = append(c.Events, EvPlan{Kind: kindOf(ref), Ref: ref, Last: true})
 			evd = append(evd, ref)
 		}
 	}
@@ -114,7 +156,7 @@ func genC11(d *Draw) Case {
 	}
 	c.Prog = &Program{Defs: defs, Vars: vars, Tags: tags, Desc: fmt.Sprintf("catches=%v shape=%d pre-task=%v events=%v racy=%v", used, shape, pre, evd, racy)}
 	c.Picks = drawPicks(d, 40)
-	c.Meta = map[string]int{"racy": b2i(racy), "nevents": len(c.Events), "shape": shape}
+	c.Meta = map[string]int{"racy": b2i(racy), "nevents": len(c.Events), "shape": shape, "final": b2i(final), "parallel": b2i(shape == 1 && nc > 1)}
 	return c
 }
 
@@ -192,6 +234,24 @@ func checkC11(cc Case, r *simrt.Result) *Outcome {
 				vl.add("C11/continued-without-event", "catch event %s continued %d time(s) but only %d matching event(s) were delivered", n.ID, leaves[n.ID], m)
 			}
 		}
+		// liveness: after the racing deliveries every awaited event was delivered once more, one at a time,
+		// at quiescent moments, in the order of the (sequential) catch events: each of them finds its
+		// listener armed or already passed, so the instance has to complete
+		if c.Meta["final"] == 1 && c.Meta["parallel"] == 0 {
+			done := false
+			q := false
+			for _, ev := range c.env.L.E {
+				if ev.Kind == "quiescent" {
+					q = true
+				}
+				if ev.Kind == "complete" && ev.A == "true" && !q {
+					done = true
+				}
+			}
+			if !done && !r.StepCap {
+				vl.add("C11/listener-stuck", "every awaited event was delivered again at a quiescent moment after the racing deliveries, but the instance did not complete: some listening catch event no longer reacts")
+			}
+		}
 	}
 	o.Viol = vl.v
 	o.Tags = c.Prog.Tags
@@ -205,6 +265,7 @@ func checkC11(cc Case, r *simrt.Result) *Outcome {
 		probe(o, "listener-fired", fired > 0)
 	}
 	probe(o, "racy-deliveries", c.Meta["racy"] == 1)
+	probe(o, "burst-behind-slow-subscriber", c.Meta["burst"] == 1)
 	probe(o, "more-events-than-inbox", calls > 3)
 	probe(o, "untaken-branch-listener", c.Meta["shape"] == 2)
 	o.Sample = map[string]any{"program": c.Prog.Desc, "buf": c.Buf, "hold": c.Hold}
